@@ -138,9 +138,9 @@ def scenarios():
         [_call(aaf, 'M', 50, '100'), _call(aag, 'f', 60, 'HJ', 1.4)])
     add('S4 interpolated distance || tabulated event warmed-up', [_call(af, 'm', 40, 'HJ')],
         [_call(af, 'm', 50, '55'), _call(af, 'f', 62, 'HJ')], bound=(1, 2))
-    add('S4 interpolated || interpolated distances warmed-up', [_call(af, 'm', 40, 'HJ')], [_call(af, 'm', 50, '7K'), _call(af, 'f', 60, '11K')], bound=(1, 2))
-    add('S4 interpolated factor || interpolated best warmed-up', [_call(af, 'm', 40, 'HJ')], [_call(af, 'm', 50, '2400'), _call(wb, 'f', '5.3M')], bound=(1, 2))
-    add('S4 interpolated || interpolated same distance first-call', [], [_call(af, 'm', 50, '7K'), _call(ag_, 'm', 61, '7K', 1800.0)], bound=(1, 2))
+    add('S4 interpolated || interpolated distances warmed-up', [_call(af, 'm', 40, 'HJ')], [_call(af, 'm', 50, '7K'), _call(af, 'f', 60, '11K')], bound=(1, 1))
+    add('S4 interpolated factor || interpolated best warmed-up', [_call(af, 'm', 40, 'HJ')], [_call(af, 'm', 50, '2400'), _call(wb, 'f', '5.3M')], bound=(1, 1))
+    add('S4 interpolated || interpolated same distance first-call', [], [_call(af, 'm', 50, '7K'), _call(ag_, 'm', 61, '7K', 1800.0)], bound=(1, 1))
     add('S4 mid-table pair warmed-up', [_call(af, 'm', 40, 'HJ')], [_call(af, 'm', 50, '5K'), _call(af, 'f', 71, 'MAR')],
         tiers=('thorough',), bound=(1, 1))
     add('S4 three threads on one grader warmed-up', [_call(af, 'm', 40, 'HJ')],
